@@ -16,7 +16,7 @@
         block's section table: machine state, error, sequence of seam calls; a stray access of the model is a panic
         (for every kernel offset, machine state and allocator behaviour; hypotheses of C05_setup_kernel_is_translation,
         of which "addresses and sizes are 64-bit" now FOLLOWS from the block's well-formedness, and the
-        fuel condition [K.fuel_ok] ranges over the NON-EMPTY sections only: for the all-zero null section that every ELF
+        fuel condition [K.fuel_ok] ranges over the MAPPED sections only (non-empty and at or above the kernel offset): for the all-zero null section that every ELF
         table starts with, the page count `size - 1` would wrap to 2^52 and no fuel would do).
     Still assumed, as in both ties: the two seam conventions (a closure run item by item / events) describe the same Go
     call; the closure ignores the section name; the visitor does not write the information block.
@@ -38,7 +38,7 @@ Theorem C10_C05_setupPDT_through_visitElfSections :
     mbinfo_wf (l_saddr l) (l_strtab l) mb -> layout_wf l (encode mb) ->
     (find_fuel (mem_of l (encode mb)) <= fuel)%nat -> (S (total_len (mem_of l (encode mb))) <= fuel)%nat ->
     65536 <= N.of_nat fuel ->
-    off < two64 -> VP.last s < two64 -> K.fuel_ok kfuel (TC5.block_secs mb) s ->
+    off < two64 -> VP.last s < two64 -> K.fuel_ok kfuel off (TC5.block_secs mb) s ->
     exists tr : list gcall,
       go_multiboot_VisitElfSections T.mld fuel (T.mkw [] (mem_of l (encode mb))) (l_info l) =
         GOk (T.mkw tr (mem_of l (encode mb)), tt) /\
